@@ -446,7 +446,14 @@ def aggregate(prop, tier, seed, results, t_start, write_baseline, extra_mod, qui
                 else:
                     base = baseline.get(oid)
                     nonrep = next((x for x in r['replays'] if x.get('clause') == clause), {})
-                    if base == 'proved' and r['contract_kind'] == 'public' and not st['unsupported']:
+                    executed = [x for x in r['replays'] if x.get('clause') == clause and x.get('reproduced') is False]
+                    if executed:
+                        # the counter-model was run on the real code and the real code agrees with the specification on it: the
+                        # refutation is an artefact of the engine's model of Python (not of the code) -> undecided, bounded stand-in
+                        ob['verdict'] = 'undecided'
+                        ob['reason'] = 'spurious counter-model: real code and specification agree on it (engine imprecision)'
+                        undecided.append(oid)
+                    elif base == 'proved' and r['contract_kind'] == 'public' and not st['unsupported']:
                         failures.append((oid, q, shp, clause, dict(nonrep, reproduced=False, no_failing_input=True)))
                     else:
                         ob['verdict'] = 'undecided'
@@ -607,6 +614,14 @@ def aggregate(prop, tier, seed, results, t_start, write_baseline, extra_mod, qui
         'wall_s': round(time.time() - t_start, 2),
         'violations': len(seen_v),
     }
+    try:
+        le = list(get_interp().load_errors)
+    except Exception as e:
+        le = [f'engine could not load the package: {e!r}']
+    if le:
+        evidence['coverage']['engine_load_errors'] = le[:10]
+        lines.append(f'NOTE property={prop}: {len(le)} top-level statement(s) of the package could not be executed by the engine and were skipped '
+                     f'(what depends on them is undecided, served by the bounded stand-in): {le[0][:160]}')
     if checker_errors:
         evidence['coverage']['checker_errors'] = checker_errors[:20]
     # a run restricted with --only is a debugging aid: its (partial) evidence goes to scratch/ and is not validated
